@@ -921,6 +921,20 @@ int main(int argc, char** argv) {
 
         rep.count("comparisons", c.comparisons);
         rep.count("tables", 6L * cs.nreg);
+        // The saturation pressure failures listed as known findings are rare events (measured: the iteration throws on 0.17 % and
+        // gives up with 0 on 0.03 % of the inversions).  A fluid model that fails on a large share of them is not that finding.
+        {
+            static long seenCases = 0;
+            if (++seenCases % 1000 == 0) {
+                const long n = rep.cov["comparisons"]["psat-inverse"];
+                long f = 0;
+                for (const auto& kv : rep.vcount) if (kv.first.rfind("psat-threw", 0) == 0 || kv.first.find(":gave-up-zero") != std::string::npos) f += kv.second;
+                rep.maxof("psat_failure_share", n > 0 ? (double)f / (double)n : 0.0);
+                if (n >= 5000 && (double)f > 0.02 * (double)n)
+                    rep.violation("psat-failure-rate", "saturationPressure() threw or gave up on " + std::to_string(f) + " of " + std::to_string(n) + " inversions (known level: 0.2 %)",
+                                  "share of failed saturation pressure inversions after " + std::to_string(seenCases) + " cases of this worker: " + std::to_string(f) + " / " + std::to_string(n) + "\n");
+            }
+        }
         // non-trivial: the deck was accepted, all six models were initialised and evaluated
         rep.case_done(vh::fnv(cs.muxDeck, vh::fnv(cs.deck)), allInit && c.comparisons >= 100);
     });
